@@ -1,4 +1,5 @@
 import Nsq.Proofs.ProtoEnv
+import Nsq.Tie.ProtoAudit
 /-!
 # C09, audit round 7 (items B4, B7, B8, B21)
 
@@ -279,6 +280,15 @@ theorem options_never_kill_checked : OptionsNeverKill true := by
       simp [h1, h2]
     rw [this]; simp
   · simp
+
+/-- THIS tree (F31 = /repo a24e9f3 is committed; audit B12): `Tie.ProtoAudit.newTickerOptionChecks_shape_known` accepts
+only the two checks and the facts decide `treeChecksTickerOptions = true`; a tree that reverts F31 fails that and this
+theorem with it. -/
+theorem options_never_kill_this_tree : OptionsNeverKill Nsq.Tie.ProtoAudit.treeChecksTickerOptions := by
+  rw [Nsq.Tie.ProtoAudit.tree_checks_ticker_options]; exact options_never_kill_checked
+
+example : firstConnection Nsq.Tie.ProtoAudit.treeChecksTickerOptions ⟨60000000000, 0⟩ = none := by
+  rw [Nsq.Tie.ProtoAudit.tree_checks_ticker_options]; decide
 
 /-- Without them (the tree before F31) `--output-buffer-timeout=0` is accepted and the first
 connection panics the process. -/
